@@ -6,18 +6,23 @@ package props
 // no panic, no access outside the supplied bytes (inputs are carved with len == cap out of
 // a poisoned array), and no accepted packet in which a declared length (string / binary
 // length prefix, property length) extends beyond the end of the body (judged by the
-// independent length walker ref.WalkLengths).
+// independent length walker ref.WalkLengths). Decoding also has to come back: the structured
+// half of the domain (c27_struct.go: grammar-driven property sections with one adversarial
+// length field, padding and rewind-aliasing layouts) runs in worker processes under the
+// liveness guard of codec_guard.go.
 //
 // Violation keys:
 //   panic:<TYPE>:v<ver>:<innermost mochi function on the panicking stack>
 //   overread:<TYPE>:v<ver>:<field>                      decoded field contains poison
 //   accepts-length-beyond-body:<TYPE>:v<ver>:<what>     what = string | binary | property-length
+//   hang:<TYPE>:v<ver>:<innermost mochi function that never returns>   decoding does not return
 
 import (
 	"bytes"
 	"encoding/hex"
 	"encoding/json"
 	"fmt"
+	"os"
 	"strings"
 	"sync/atomic"
 
@@ -85,8 +90,8 @@ func c27Check(in *codecInput, st *c27State) (key, msg string) {
 	if pn != nil {
 		st.panics++
 		return fmt.Sprintf("panic:%s:v%d:%s", cdcTname(typ), in.Ver, pn.Site),
-			fmt.Sprintf("decoding %s body [% x] (header %#02x, protocol version %d) panicked in %s: %s; expected: a packet or an error (%s)",
-				cdcTname(typ), in.Body, in.Hdr, in.Ver, pn.Site, pn.Msg, in.Src)
+			fmt.Sprintf("decoding %s body [%s] (header %#02x, protocol version %d) panicked in %s: %s; expected: a packet or an error (%s)",
+				cdcTname(typ), cdcRLE(in.Body), in.Hdr, in.Ver, pn.Site, pn.Msg, in.Src)
 	}
 	if err != nil {
 		st.rejected++
@@ -98,7 +103,7 @@ func c27Check(in *codecInput, st *c27State) (key, msg string) {
 	if bytes.IndexByte(in.Body, cdcPoisonByte) < 0 {
 		if f := cdcPoisonField(&pk); f != "" {
 			return fmt.Sprintf("overread:%s:v%d:%s", cdcTname(typ), in.Ver, f),
-				fmt.Sprintf("decoding %s body [% x] (version %d) returned a %s containing bytes from outside the supplied slice", cdcTname(typ), in.Body, in.Ver, f)
+				fmt.Sprintf("decoding %s body [%s] (version %d) returned a %s containing bytes from outside the supplied slice", cdcTname(typ), cdcRLE(in.Body), in.Ver, f)
 		}
 	}
 	o := ref.WalkLengths(typ, in.Hdr&15, in.Ver, in.Body)
@@ -110,8 +115,8 @@ func c27Check(in *codecInput, st *c27State) (key, msg string) {
 	}
 	if o.Beyond {
 		return fmt.Sprintf("accepts-length-beyond-body:%s:v%d:%s", cdcTname(typ), in.Ver, o.What),
-			fmt.Sprintf("%s body [% x] (header %#02x, version %d) declares a %s that extends beyond the %d supplied bytes, yet the decoder accepted it; expected: rejected (%s)",
-				cdcTname(typ), in.Body, in.Hdr, in.Ver, o.What, len(in.Body), in.Src)
+			fmt.Sprintf("%s body [%s] (header %#02x, version %d) declares a %s that extends beyond the %d supplied bytes, yet the decoder accepted it; expected: rejected (%s)",
+				cdcTname(typ), cdcRLE(in.Body), in.Hdr, in.Ver, o.What, len(in.Body), in.Src)
 	}
 	return "", ""
 }
@@ -125,8 +130,20 @@ func c27Replay(raw json.RawMessage) (bool, []string) {
 	ar := cdcNewArena(len(body))
 	in := codecInput{Hdr: r.Hdr, Ver: r.Ver, Body: ar.carve(body), Src: "replay"}
 	st := &c27State{outcomes: map[string]struct{}{}}
-	tr := []string{fmt.Sprintf("decode %s header=%#02x version=%d body=[% x] as buf[:%d:%d] inside a poisoned array", cdcTname(r.Hdr>>4), r.Hdr, r.Ver, body, len(body), len(body))}
+	tr := []string{fmt.Sprintf("decode %s header=%#02x version=%d body=[%s] as buf[:%d:%d] inside a poisoned array", cdcTname(r.Hdr>>4), r.Hdr, r.Ver, cdcRLE(body), len(body), len(body))}
+	// a replayed input may be one that does not return: the liveness guard ends the replay
+	c27ReplayFn = func(in *codecInput, site, why string) {
+		v := c27HangViolation(in, site, why)
+		for _, t := range append(tr, "key="+v.Key, v.Msg) {
+			fmt.Println("  ", t)
+		}
+		fmt.Println("REPRODUCED")
+		os.Exit(1)
+	}
+	g := c27StartGuard()
+	g.enter(&in)
 	key, msg := c27Check(&in, st)
+	g.leave()
 	if key == "" {
 		_, err, _ := cdcSafeDecode(in.Hdr, in.Ver, in.Body)
 		tr = append(tr, fmt.Sprintf("decoder returned err=%v, no violation", err))
@@ -188,6 +205,7 @@ func init() {
 				evals++
 			}()
 		}
+		c27RunStructured(c)
 		c.Rep.Count("evaluations", evals)
 		c.Rep.Count("accepted", accepted)
 		c.Rep.Count("rejected", rejected)
